@@ -140,7 +140,25 @@ func NewSchema(config SchemaConfig) (Schema, error) {
 		schema.extensions = config.Extensions
 	}
 
+	schema.buildPossibleTypeMap()
 	return schema, nil
+}
+
+// buildPossibleTypeMap precomputes the possible-type table of every abstract
+// type, so that IsPossibleType only reads shared state when requests run
+// concurrently against one schema.
+func (gq *Schema) buildPossibleTypeMap() {
+	possibleTypeMap := map[string]map[string]bool{}
+	for _, ttype := range gq.typeMap {
+		if abstractType, ok := ttype.(Abstract); ok {
+			typeMap := map[string]bool{}
+			for _, possibleType := range gq.PossibleTypes(abstractType) {
+				typeMap[possibleType.Name()] = true
+			}
+			possibleTypeMap[abstractType.Name()] = typeMap
+		}
+	}
+	gq.possibleTypeMap = possibleTypeMap
 }
 
 //Added Check implementation of interfaces at runtime..
@@ -191,7 +209,11 @@ func (gq *Schema) AppendType(objectType Type) error {
 		return err
 	}
 	//Now Add interface implementation..
-	return gq.AddImplementation()
+	if err := gq.AddImplementation(); err != nil {
+		return err
+	}
+	gq.buildPossibleTypeMap()
+	return nil
 }
 
 func (gq *Schema) QueryType() *Object {
@@ -243,6 +265,7 @@ func (gq *Schema) IsPossibleType(abstractType Abstract, possibleType *Object) bo
 	possibleTypeMap := gq.possibleTypeMap
 	if possibleTypeMap == nil {
 		possibleTypeMap = map[string]map[string]bool{}
+		gq.possibleTypeMap = possibleTypeMap
 	}
 
 	if typeMap, ok := possibleTypeMap[abstractType.Name()]; !ok {
@@ -254,7 +277,6 @@ func (gq *Schema) IsPossibleType(abstractType Abstract, possibleType *Object) bo
 		possibleTypeMap[abstractType.Name()] = typeMap
 	}
 
-	gq.possibleTypeMap = possibleTypeMap
 	if typeMap, ok := possibleTypeMap[abstractType.Name()]; ok {
 		isPossible, _ := typeMap[possibleType.Name()]
 		return isPossible
